@@ -165,6 +165,29 @@ def ed_in_subgroup(P):
     return ed_mul(P, L) == ED_ZERO
 
 
+def ed_arbitrary_increments(seed):
+    """how many candidates y, y+1, ... the published construction skips for this seed before the first usable point"""
+    y = int.from_bytes(hkdf_sha256(seed, 48, b"", b"SPAKE2 arbitrary element"), "big") % Q
+    plus = 0
+    while True:
+        yp = (y + plus) % Q
+        xx = (yp * yp - 1) * pow(D * yp * yp + 1, Q - 2, Q) % Q
+        if xx == 0 or pow(xx, (Q - 1) // 2, Q) == 1:
+            if ed_mul((_arb_recover_x(yp), yp), 8) != ED_ZERO:
+                return plus
+        plus += 1
+
+
+def _arb_recover_x(yp):
+    xx = (yp * yp - 1) * pow(D * yp * yp + 1, Q - 2, Q) % Q
+    x = pow(xx, (Q + 3) // 8, Q)
+    if (x * x - xx) % Q != 0:
+        x = x * SQRT_M1 % Q
+    if x % 2 != 0:
+        x = Q - x
+    return x
+
+
 def ed_arbitrary_element(seed):
     y = int.from_bytes(hkdf_sha256(seed, 48, b"", b"SPAKE2 arbitrary element"), "big") % Q
     plus = 0
